@@ -6,6 +6,7 @@ import (
 	"fmt"
 	"net"
 	"strings"
+	"sync"
 	"testing"
 	"time"
 
@@ -107,7 +108,14 @@ func c15Tap(r *rng, id string) {
 			}
 		}()
 		n.tr.take()
-		// 1. user messages
+		// 1. user messages, of many lengths (sealing and sizing depend on the length)
+		for k := 0; k < 4; k++ {
+			long := append(append([]byte{}, secret...), bytes.Repeat([]byte("SECRET-PAYLOAD-0123456789"), 60)...)
+			n.m.SendBestEffort(to, long[:16+r.intn(1250)])
+			_, fin := dialCapture()
+			n.m.SendReliable(to, long[:16+r.intn(1400)])
+			fin()
+		}
 		n.m.SendBestEffort(to, secret)
 		n.m.SendToAddress(ml.Address{Addr: "10.0.0.1:7946", Name: peerName}, secret)
 		_, fin := dialCapture()
@@ -223,4 +231,66 @@ func TestC15(t *testing.T) {
 		n = envInt("VERIF_N", 20000)
 	}
 	forCases(n, 151, "t", func(i int, r *rng, id string) { c15Tap(r, id) })
+	forCases(6, 152, "r", func(i int, r *rng, id string) { c15Race(r, id) })
+}
+
+// c15Race: mid-rotation traffic in both directions at once: peers that still seal under the old key are
+// being read on some goroutines while this node sends on others. Everything that leaves must be sealed
+// under the current primary key, whatever the interleaving.
+func c15Race(r *rng, id string) {
+	oldK, newK := mkKey(r, 16), mkKey(r, []int{16, 24, 32}[r.intn(3)])
+	label := []string{"", "lbl"}[r.intn(2)]
+	n, err := newCnode(ccfg{name: "S", label: label, key: oldK, verifyIn: true, verifyOut: true})
+	if err != nil {
+		return
+	}
+	defer n.m.Shutdown()
+	n.kr.AddKey(newK)
+	n.kr.UseKey(newK)
+	user := append([]byte{8}, []byte("from-a-peer-on-the-old-key")...)
+	oldPkt, _ := ml.VerifEncryptPayload(1, oldK, user, []byte(label))
+	if label != "" {
+		oldPkt, _ = ml.AddLabelHeaderToPacket(oldPkt, label)
+	}
+	n.tr.take()
+	var wg sync.WaitGroup
+	stop := time.Now().Add(time.Duration(40+r.intn(40)) * time.Millisecond)
+	for g := 0; g < 6; g++ {
+		wg.Add(1)
+		go func(g int) {
+			defer wg.Done()
+			defer func() { recover() }()
+			for time.Now().Before(stop) {
+				if g%2 == 0 {
+					ml.VerifIngestPacket(n.m, append([]byte(nil), oldPkt...), fromAddr, time.Now())
+				} else {
+					n.m.SendToAddress(ml.Address{Addr: "10.0.0.1:7946", Name: "peer"}, []byte("SECRET-OUT"))
+				}
+			}
+		}(g)
+	}
+	wg.Wait()
+	pkts := n.tr.take()
+	wrongKey, clear := 0, 0
+	for _, p := range pkts {
+		body := p
+		if label != "" {
+			if nb, _, err := ml.RemoveLabelHeaderFromPacket(p); err == nil {
+				body = nb
+			}
+		}
+		if bytes.Contains(p, []byte("SECRET-OUT")) {
+			clear++
+		}
+		if _, err := ml.VerifDecryptPayload([][]byte{newK}, body, []byte(label)); err != nil {
+			wrongKey++
+		}
+	}
+	bs := "-"
+	if clear > 0 {
+		bs = fmt.Sprintf("packets-in-clear@%d-of-%d", clear, len(pkts))
+	} else if wrongKey > 0 {
+		bs = fmt.Sprintf("packets-not-sealed-under-the-primary-key-while-old-key-traffic-was-being-read@%d-of-%d", wrongKey, len(pkts))
+	}
+	emit("C15 race id=%s label=%d packets=%d bad=%s", id, len(label), len(pkts), bs)
 }
